@@ -32,7 +32,7 @@ def step (s : Sys) (ws : List String) : Sys × String :=
       let o : Option Op := match op with
         | "lock" => some (.lock t) | "unlock" => some (.unlock t) | "get" => some (.get t) | "reserve" => some (.reserve t)
         | "stage" => some (.stage t) | "logpre" => some (.logPre t) | "flip" => some (.flip t) | "undo" => some (.undo t)
-        | "crash" => some (.crash t) | "recover" => some (.recover t) | _ => none
+        | "crash" => some (.crash t) | "recover" => some (.recover t) | "restore" => some (.restore t) | _ => none
       match o with
       | none => (s, "bad-op")
       | some o => let s' := HandleProto.step true s o; (s', showSys s')
